@@ -90,9 +90,6 @@ theorem C55_record_bound (pairs : List (Bytes × Bytes)) (body : Bytes) (rs : Li
     · subst h; simp
     · simp at h
 
-def big : Bytes := List.replicate 65493 0
-theorem big_length : big.length = 65493 := List.length_replicate ..
-
 /-- **C55_witness_trunc**: the full statement is false — a 65493-byte value under an empty name arrives cut
     to 65492 bytes (silently; the request is still well-formed). -/
 theorem C55_witness_trunc : ¬ ParamsRoundTrip := by
